@@ -273,16 +273,21 @@ def sig_f20(lines):
 def sig_f24(lines):
     """Mechanism of known finding F24, on the client's observations: a client frame applies a mapping for a
     server entity that the client's map already holds as a plain (not pre-spawned) entry - the placeholder
-    reserved earlier for a reference."""
+    reserved for a reference, before the frame or by an earlier message applied in the same frame."""
     prev = None
     for d in lines:
         if d["ev"] == "CliFrame" and prev is not None:
             c = d["args"]["c"]
             pe = prev["post"]["cli"][c]["ents"]
+            known = {e for e, v in pe.items() if v.get("pre", "none") == "none"}
             for m in prev["post"]["net"][c]["rxUpd"]:
                 for mp in m.get("maps", []):
-                    if mp[0] in pe and pe[mp[0]].get("pre", "none") == "none":
+                    if mp[0] in known:
                         return True
+                for e, ch in m.get("chg", {}).items():
+                    known.add(e)
+                    if isinstance(ch, dict) and "ChildOf" in ch:
+                        known.add(ch["ChildOf"])
         prev = d
     return False
 
